@@ -11,7 +11,7 @@ import (
 
 func init() {
 	register(
-		&Rule{ID: "KI-PROPAGATE", Doc: "every pb.Biscuit envelope built from a token copies RootKeyId; the root constructor takes it from the option", Run: ruleKIPropagate, Min: 6},
+		&Rule{ID: "KI-PROPAGATE", Doc: "every pb.Biscuit envelope built from a token copies RootKeyId; the root constructor takes it from the option", Run: ruleKIPropagate, Min: 4},
 		&Rule{ID: "KI-LOOKUP", Doc: "WithRootPublicKeys returns the default key only for a nil id, the mapped key only for a present id, otherwise ErrNoPublicKeyAvailable", Run: ruleKILookup, Min: 3},
 		&Rule{ID: "KI-FLOW", Doc: "AuthorizerFor asks the key source for the token's id, wraps its error with %w, rejects an empty key and verifies with the returned key", Run: ruleKIFlow, Min: 4},
 	)
